@@ -26,6 +26,7 @@ import numpy as np
 from vlib.gen import systems as gs
 from vlib.gen.c07_states import StateSystem
 from vlib.gen.c07_states import add_states
+from vlib.gen.c07_states import integerize_functions
 from vlib.harness import subseed
 
 PID = "C07"
@@ -115,6 +116,8 @@ SOLVERS = ["DEFAULT", "LGMRES", "GMRES", "GCROT", "BICGSTAB", "BICG", "CGS", "TF
 SOLVER_WEIGHTS = np.array([4, 2, 3, 2, 2, 2, 2, 2, 0.5])
 MODES = ["auto", "direct", "adjoint"]
 TOL = 1e-7
+TOL_FLOAT32 = 2e-5  # blocks handed over in single precision carry a relative rounding of 6e-8 before any solve
+JAC_REPRS = ["float64", "int64", "int32", "float32", "complex", "fortran", "strided", "readonly", "mixed"]
 COND_MAX = 1e3
 
 
@@ -183,6 +186,8 @@ def gen_system(rng, small=False, states=None):
         spec = gs.random_system(rng, n=n, max_size=int(rng.choice([3, 3, 4])))
         if states if states is not None else rng.random() < 0.3:
             add_states(spec, rng)
+        if rng.random() < 0.4:
+            integerize_functions(spec, rng)
         S = StateSystem(spec)
         if S.cond_residual_jacobian(S.default_inputs()) <= COND_MAX:
             return spec
@@ -203,8 +208,15 @@ def gen_config(rng, S):
     lu = bool(rng.random() < 0.25)
     solver = str(rng.choice(SOLVERS, p=SOLVER_WEIGHTS / SOLVER_WEIGHTS.sum()))
     jac_kind = str(rng.choice(["dense", "dense", "sparse", "operator"]))
+    # dtype / memory layout of the Jacobian blocks the disciplines return (dense: all; sparse: dtypes only)
+    has_int = any(d.get("int_f") for d in S.discs)
+    weights = np.array([6, 3 if has_int else 0.5, 2 if has_int else 0.5, 1, 1, 1, 1, 1, 2 if has_int else 1.0])
+    jac_repr = str(rng.choice(JAC_REPRS, p=weights / weights.sum())) if jac_kind != "operator" else "float64"
+    if jac_kind == "sparse" and jac_repr not in ("float64", "int64", "int32", "float32", "complex"):
+        jac_repr = "float64"
+    out_repr = [None, "strided", "readonly"][int(rng.choice(3, p=[0.84, 0.08, 0.08]))]
     return {"flavour": name, "cls": cls, "kw": kw, "order": order, "lu": lu, "solver": solver,
-            "jac_kind": jac_kind}
+            "jac_kind": jac_kind, "jac_repr": jac_repr, "out_repr": out_repr}
 
 
 def _point(rng, S):
@@ -277,6 +289,9 @@ def classify_exception(S, exc, I, O, cfg):
     """-> ("observe", name) | ("violation", signature)."""
     name, msg = type(exc).__name__, str(exc)
     mod, func = _gemseo_frame(exc)
+    if (name == "TypeError" and "Cannot cast array data" in msg and func in ("_adjoint_mode_lu", "_direct_mode_lu")
+            and cfg.get("jac_repr") in ("float32", "mixed")):
+        return "violation", "C07:assembly:TypeError:single-precision-LU-when-all-residual-blocks-are-float32"
     if name == "RuntimeError" and "breakdown" in msg and mod == "scipy_linalg":
         return "observe", f"linear-solver-reported-breakdown:{cfg['solver']}"
     crosses = S.request_crosses_strong_link(I, O)
@@ -301,7 +316,12 @@ def classify_exception(S, exc, I, O, cfg):
         links = [(a, b) for a, b in S.cross_group_strong_links() if any(S.comp[i] == S.comp[b] for i in involved)]
         if crosses or key in [f"y{a}" for a, _ in links]:
             return "violation", "C07:traverse:strong-coupling-read-by-another-strong-group:KeyError"
-    return "violation", f"C07:exception:{name}:{mod}.{func}"
+    feat = ""
+    if (cfg.get("jac_repr") or "float64") != "float64":
+        feat += f":jacobian-blocks-{cfg['jac_repr']}"
+    if cfg.get("out_repr"):
+        feat += f":outputs-{cfg['out_repr']}"
+    return "violation", f"C07:exception:{name}:{mod}.{func}{feat}"
 
 
 def classify_mismatch(S, o, w, blk, point, I, O, cfg, step):
@@ -318,7 +338,9 @@ def classify_mismatch(S, o, w, blk, point, I, O, cfg, step):
     if S.request_crosses_strong_link(I, O):
         return "C07:traverse:strong-coupling-read-by-another-strong-group:wrong-value"
     feat = step["mode"] + ":" + step["matrix_type"] + ("+lu" if cfg["lu"] else "")
-    return f"C07:block-mismatch:{feat}" + (":states" if S.has_states else "")
+    jac_repr = cfg.get("jac_repr") or "float64"
+    return (f"C07:block-mismatch:{feat}" + (":states" if S.has_states else "")
+            + (f":jacobian-blocks-{jac_repr}" if jac_repr != "float64" else ""))
 
 
 # --------------------------------------------------------------------------- execution
@@ -333,7 +355,8 @@ def dense(block):
 def build_mda(S, cfg):
     from gemseo.mda.factory import MDAFactory
 
-    discs = S.make_disciplines(order=cfg["order"], jac_kind=cfg["jac_kind"])
+    discs = S.make_disciplines(order=cfg["order"], jac_kind=cfg["jac_kind"], jac_repr=cfg.get("jac_repr"),
+                               out_repr=cfg.get("out_repr"))
     mda = MDAFactory().create(cfg["cls"], discs, tolerance=1e-12, max_mda_iter=300, use_lu_fact=cfg["lu"],
                               linear_solver=cfg["solver"], **cfg["kw"])
     return mda, discs
@@ -342,7 +365,8 @@ def build_mda(S, cfg):
 def case_signature(case, k, step, nI, nO, same_point):
     spec, cfg = case["spec"], case["config"]
     return (case["kind"], spec["kind"], spec["n"], spec["nonlinear"], any("state" in d for d in spec["disciplines"]),
-            cfg["jac_kind"], cfg["flavour"], cfg["solver"], cfg["lu"], step["mode"], step["matrix_type"],
+            cfg["jac_kind"], cfg.get("jac_repr", "float64"), cfg.get("out_repr"), cfg["flavour"], cfg["solver"],
+            cfg["lu"], step["mode"], step["matrix_type"],
             step["all"], nI, nO, k, same_point)
 
 
@@ -420,6 +444,21 @@ def run_case(case, rep, sample=False):
         rep.count(f"matrix_type:{step['matrix_type']}" + ("+lu" if cfg["lu"] else ""))
         rep.count(f"flavour:{cfg['flavour']}")
         rep.count(f"jac_kind:{cfg['jac_kind']}")
+        jac_repr = cfg.get("jac_repr") or "float64"
+        rep.count(f"jac_repr:{jac_repr}")
+        if cfg.get("out_repr"):
+            rep.count(f"out_repr:{cfg['out_repr']}")
+        if jac_repr in ("int64", "int32", "mixed") and cfg["jac_kind"] != "operator":
+            # functions whose partial Jacobians reach gemseo as integer arrays for every requested input
+            int_funs = [o for o in O if o in S.f_names and S.discs[S.owner[o]].get("int_f")
+                        and all(S.owner[o] in S.readers(w) for w in I)]
+            if int_funs:
+                rep.count("requests_judged_with_integer_function_jacobians")
+                n_var, n_fun = sum(S.sizes[w] for w in I), sum(S.sizes[o] for o in O)
+                adjoint = step["mode"] == "adjoint" or (step["mode"] == "auto" and n_var > n_fun)
+                if jac_repr != "mixed" and S.couplings_on_path(I, int_funs):
+                    rep.count("requests_judged_integer_dfun_dx:" + ("adjoint" if adjoint else "direct")
+                              + ("+lu" if cfg["lu"] else ""))
         if S.has_states:
             rep.count("requests_judged_with_state_disciplines")
         if k:
@@ -448,7 +487,8 @@ def run_case(case, rep, sample=False):
                                   observed={"block": [o, w], "shape": list(blk.shape)}, expected=list(ex.shape))
                     continue
                 err = float(np.max(np.abs(blk - ex))) if ex.size else 0.0
-                bound = TOL * (1 + (float(np.max(np.abs(ex))) if ex.size else 0.0))
+                tol = TOL_FLOAT32 if cfg.get("jac_repr") == "float32" else TOL
+                bound = tol * (1 + (float(np.max(np.abs(ex))) if ex.size else 0.0))
                 if not err <= bound and (worst is None or err / bound > worst[0]):
                     worst = (err / bound, o, w, blk, ex, err, bound)
         if worst is not None:
@@ -510,19 +550,22 @@ def directed_cases():
     out = []
     point = {"x": [0.3, -0.7], "z0": [0.5], "z1": [0.1, 0.2, -0.4], "z2": [0.25], "z3": [-0.3, 0.6]}
 
-    def case(discs, kind, requests, flavours, nonlinear=False):
+    default_combos = (("direct", "matrix", False), ("adjoint", "linear_operator", False), ("auto", "matrix", True))
+
+    def case(discs, kind, requests, flavours, nonlinear=False, combos=default_combos, reprs=(("dense", "float64"),),
+             solver="DEFAULT"):
         spec = {"n": len(discs), "kind": kind, "nonlinear": nonlinear, "L": 0.5, "x_size": 2, "disciplines": discs}
         S = StateSystem(spec)
         pt = {k: point[k] for k in S.independent}
         for name, cls, kw in flavours:
             for I, O in requests:
-                for mode, mt, lu in (("direct", "matrix", False), ("adjoint", "linear_operator", False),
-                                     ("auto", "matrix", True)):
-                    cfg = {"flavour": name, "cls": cls, "kw": kw, "order": list(range(len(discs))), "lu": lu,
-                           "solver": "DEFAULT", "jac_kind": "dense"}
-                    out.append({"kind": "directed", "spec": spec, "config": cfg,
-                                "steps": [{"all": False, "I": I, "O": O, "point": pt, "mode": mode,
-                                           "matrix_type": mt}]})
+                for mode, mt, lu in combos:
+                    for jac_kind, jac_repr in reprs:
+                        cfg = {"flavour": name, "cls": cls, "kw": kw, "order": list(range(len(discs))), "lu": lu,
+                               "solver": solver, "jac_kind": jac_kind, "jac_repr": jac_repr, "out_repr": None}
+                        out.append({"kind": "directed", "spec": spec, "config": cfg,
+                                    "steps": [{"all": False, "I": I, "O": O, "point": pt, "mode": mode,
+                                               "matrix_type": mt}]})
 
     chain = [("MDAChain[Jacobi]", "MDAChain", {"n_processes": 1}),
              ("MDAChain[Jacobi,chain_linearize]", "MDAChain", {"n_processes": 1, "chain_linearize": True})]
@@ -559,6 +602,27 @@ def directed_cases():
                              "y2": [[0.2], [-0.1], [0.3]]},
                        "p": [0.1, -0.2, 0.0], "W": [[0.2, -0.1, 0.3], [0.15, 0.3, -0.2]], "V": [[0.4, -0.3, 0.1]]}
     case(st2, "tail_head", [(["x"], ["f1"]), (["z0", "z2"], ["y1", "y2"]), (["x", "z3"], ["f3", "y3"])], chain[:1] + jac)
+    # 6. a function discipline with integer coefficients returning its (constant) Jacobians as integer arrays,
+    #    with couplings on the path: every mode / matrix type / LU, dense and sparse blocks, int64 / int32 / mixed
+    intf = [_lin_disc(0, [("x", 2), ("z0", 1), ("y1", 3)], 2), _lin_disc(1, [("x", 2), ("y0", 2)], 3),
+            _lin_disc(2, [("x", 2), ("z2", 1), ("y0", 2), ("y1", 3)], 1, 2)]
+    intf[2].update(B={"x": [[1, 0], [2, -3]], "z2": [[-1], [4]], "y0": [[1, -2], [0, 3]], "y1": [[2, 0, -1], [1, 1, -4]]},
+                   q=0.0, int_f=True)
+    every = [(m_, t_, l_) for m_ in MODES for t_, l_ in (("matrix", False), ("linear_operator", False), ("matrix", True))]
+    case(intf, "tail_head", [(["x"], ["f2"]), (["x", "z2"], ["f2"]), (["x", "z0", "z2"], ["f2", "y2"])],
+         chain[:1] + jac[1:], combos=every,
+         reprs=(("dense", "int64"), ("dense", "int32"), ("sparse", "int64"), ("dense", "mixed")))
+    case(intf, "tail_head", [(["x", "z2"], ["f2"])], jac[1:], combos=every[3:],
+         reprs=(("dense", "int64"),), solver="GMRES")
+    # 7. the other representations on the self-coupled ring (the -I shift works on a copy of the block)
+    case(ring, "ring", [(["x", "z0"], ["y0", "f1"])], jac[1:] + newton[:1], nonlinear=True, combos=every[::2],
+         reprs=(("dense", "float32"), ("dense", "complex"), ("dense", "fortran"), ("dense", "strided"),
+                ("dense", "readonly"), ("sparse", "float32"), ("sparse", "complex")))
+    # 8. residual Jacobian made of single-precision blocks only (one self-coupled discipline) and a second function
+    #    without coupling input (float64 zero block): LU in both modes
+    sc = [_lin_disc(0, [("x", 2), ("z0", 1), ("y0", 2)], 2, 1), _lin_disc(1, [("x", 2), ("z1", 3)], 3, 2)]
+    case(sc, "two_scc", [(["x"], ["f0", "f1"]), (["x", "z0", "z1"], ["f1", "y0"])], jac[1:] + chain[:1],
+         combos=[c for c in every if c[2]], reprs=(("dense", "float32"), ("sparse", "float32"), ("dense", "float64")))
     return out
 
 
